@@ -463,8 +463,11 @@ Print Assumptions C17_restore_mixed.
 
 (* re-binding under concurrency (below operation level, outside C17's quantifier: use_dynamic_dispatch is a process-wide
    mode switch, not a selection).  While one thread runs use_dynamic_dispatch() other threads may look dispatched names
-   up between any two of its acts.  For the loop WITHOUT the delattr every such look-up, in every schedule, finds the
-   old or the new binding, hence never a missing attribute ... *)
+   up between any two of its acts.  The loop as it is since /repo commit 34d4068 sets every name with ONE setattr
+   (rprog false): every such look-up, in every schedule, finds the old or the new binding, hence never a missing
+   attribute.  On every run the harness stops a real use_dynamic_dispatch at source-line and at bytecode granularity while
+   another thread looks up EVERY dispatched name, and Coq checks `a window was seen iff the loop in the source deletes
+   before it sets` *)
 Theorem C17_micro_rebind_old_or_new : forall (fresh : fname -> slot) (names : list fname) (l : list (bool * fname))
     (cl0 cl : fname -> slot),
   (forall n, cl n = cl0 n \/ cl n = fresh n) ->
@@ -479,10 +482,9 @@ Theorem C17_micro_rebind_no_window : forall (fresh : fname -> slot) (names : lis
 Proof. exact rebind_no_window. Qed.
 Print Assumptions C17_micro_rebind_no_window.
 
-(* ... for the loop as written (delattr, then setattr) it is refuted: a look-up between the two acts finds the name
-   missing (AttributeError through the manager module) although it is bound before and after; confirmed on the real
-   code by a settrace interleaving on every run (known finding rebind_window, candidate repair
-   build/fix_candidates/C17_dynamic_dispatch_window.diff) *)
+(* before_34d4068 (documentation of the OLD loop: delattr, then setattr per name - rprog true): a look-up between the two
+   acts found the name missing (AttributeError through the manager module) although it was bound before and after;
+   repaired by /repo commit 34d4068 (candidate build/fix_candidates/C17_dynamic_dispatch_window.diff) *)
 Theorem C17_micro_rebind_window_refuted :
   let cl := fun _ : fname => SWrap in
   rsched cl (rprog true (fun _ => SWrap) [0; 1]) [(false, 0); (true, 0); (false, 0); (false, 1); (true, 0); (false, 0)]
